@@ -2,7 +2,7 @@
 # usage: try_mutant.sh <seed-id> <property> [tier] — applies a kept seeded change to /repo, runs the check, undoes it.
 id=$1; prop=$2; tier=${3:-quick}
 cd /repo && git apply /verif/seeded/$id/patch.diff || { echo "apply failed"; exit 2; }
-cd /verif && ./bin/check $prop $tier > /tmp/try_$id.out 2>&1; rc=$?
+cd /verif && VERIF_NOEVIDENCE=1 ./bin/check $prop $tier > /tmp/try_$id.out 2>&1; rc=$?
 git -C /repo checkout -- . 
 echo "exit=$rc"; grep -E "^VIOLATION|^  class|^KNOWN|^INCONCLUSIVE|^ENGINE|^OK" /tmp/try_$id.out | head -20
 git -C /repo status --short | head -3
